@@ -154,6 +154,13 @@ theorem reverse_lines_separated (c : List Nat) (bs : Nat) (hbs : 1 ≤ bs)
     reverseIterLines c bs = (sepLines c).reverse := by
   rw [reverse_lines c bs hbs, linesOf_eq_sepLines c hcr hne]
 
+/-- nothing is lost or invented: for a content without CR, the yielded lines put back in file order
+    and joined by LF are the content, for every block size -/
+theorem reverse_lines_rejoin (c : List Nat) (bs : Nat) (hbs : 1 ≤ bs) (hne : c ≠ [])
+    (h : ∀ x ∈ c, x ≠ 13) : joinWith [10] (reverseIterLines c bs).reverse = c := by
+  rw [reverse_lines_separated c bs hbs hne (noLoneCR_of_noCR c h), List.reverse_reverse,
+    sepLines_rejoin c h]
+
 /-- an empty file has no lines -/
 theorem reverse_lines_empty (bs : Nat) : reverseIterLines [] bs = [] := by
   simp [reverseIterLines, revLoop, revLoopS, flush]
@@ -575,5 +582,8 @@ example : jsonlForwardPosB pyWs toyParse true [51, 10, 10, 120, 13, 10, 51, 10, 
 -- text mode: "<NBSP>3\n3" (c2 a0 33 0a 33): str.lstrip removes the NBSP, bytes.lstrip would not
 example : jsonlReverseText pyWsT toyParse true 2 [194, 160, 51, 10, 51] = ([3, 3], none) := by decide
 example : (jsonlReverse pyWs toyParse true 2 [194, 160, 51, 10, 51]).1 = [3] := by decide
+
+-- "a\n\nb\n": the lines [b"", b"b", b"", b"a"] reversed and joined by LF give the content back
+example : joinWith [10] (reverseIterLines [97, 10, 10, 98, 10] 2).reverse = [97, 10, 10, 98, 10] := by decide
 
 end C19
